@@ -151,6 +151,16 @@ pub enum WriteEv {
     Err(ErrKind),
 }
 
+/// What the link does on the next flush of the write half.
+#[derive(Serialize, Deserialize, Clone, Debug, PartialEq, Eq)]
+pub enum FlushEv {
+    Ok,
+    /// not ready (async only)
+    Pending,
+    /// not ready + clock moves (async only)
+    Stall(u64),
+}
+
 /// What the application task does next.
 #[derive(Serialize, Deserialize, Clone, Debug, PartialEq, Eq)]
 pub enum AppOp {
@@ -181,6 +191,13 @@ pub struct StreamScenario {
     pub inbound: Vec<u8>,
     pub reads: Vec<ReadEv>,
     pub writes: Vec<WriteEv>,
+    /// script of the write half's flush (async only; empty = always ready)
+    #[serde(default)]
+    pub flushes: Vec<FlushEv>,
+    /// the transport buffers what it accepts and only hands it to the peer on a successful
+    /// flush, as the shipped WebSocket adaptor does (tokio executor only)
+    #[serde(default)]
+    pub buffered: bool,
     pub ops: Vec<AppOp>,
 }
 
